@@ -1,9 +1,32 @@
 import HecsModel.Model.Guards
+import HecsModel.Model.GuardJudge
+import HecsModel.Lemmas.GuardsHeld
 /-
-  C05 — Dynamic borrow checking enforces aliasing-xor-mutation, exactly. (interim)
+  C05 — Dynamic borrow checking enforces aliasing-xor-mutation, exactly.
+
+  "Through shared access to a world, a unique reference to a component is never live at the same
+  time as any other reference to that same component: any attempt that would create such an overlap
+  panics instead.  Conversely, two borrows conflict only if some non-empty archetype satisfies both
+  and they touch a common component type with at least one unique access; otherwise both are
+  granted.  When every guard has been dropped, all components are borrowable again."
+
+  Property theorems only; helper lemmas live in `Lemmas/Guards*.lean`.
+
+  Vocabulary (all from `Lemmas/Guards*.lean`, namespace `Hecs.GuardLemmas`):
+  * `H = Col × Bool`: a holder (column, unique?);  `heldAll s`: what all live guards hold
+    (`held` of each, from the guards' *definitions*);
+  * `Counts ws hs`: every word is `UNIQUE * #unique holders + #shared holders`;
+    `Excl hs`: per column at most one unique holder, and a unique holder excludes shared ones;
+  * `WInv s leak`: `Counts`/`Excl` for `heldAll s ++ leak`, plus distinct guard names.  `leak` is
+    the list of borrows that refused multi-column acquisitions left behind (open finding F15: the
+    code panics in the middle of `start_borrow`/`PreparedQueryBorrow::new`/`QueryOne::get` without
+    rolling back);
+  * `acquireCols`/`acqPre`: acquiring a column list in order / the prefix actually acquired;
+    `grantPre hs l`: the prefix the property predicts;  `Bound`: fewer than `UNIQUE` borrows in
+    total (counter overflow is out of scope).
 -/
 namespace Hecs.Props.C05
-open Hecs Hecs.Guards
+open Hecs Hecs.Guards Hecs.GuardLemmas
 
 /-- a unique acquisition is granted only on an unborrowed column -/
 theorem acquire_unique_only_if_free (ws ws' : Words) (c : Col) (h : acquire ws c true = some ws') :
@@ -22,5 +45,345 @@ theorem acquire_shared_only_if_not_unique (ws ws' : Words) (c : Col) (h : acquir
   by_cases h0 : wordOf ws c ≥ Borrow.UNIQUE
   · simp [h0] at h
   · omega
+
+/-! ### 1. the counting invariant and the primitive operations -/
+
+theorem counts_def (ws : Words) (hs : List (Col × Bool)) :
+    Counts ws hs ↔ ∀ c, wordOf ws c =
+      Borrow.UNIQUE * (hs.filter (fun h => h.1 == c && h.2)).length +
+        (hs.filter (fun h => h.1 == c && !h.2)).length := Iff.rfl
+
+theorem excl_def (hs : List (Col × Bool)) :
+    Excl hs ↔ ∀ c, (hs.filter (fun h => h.1 == c && h.2)).length ≤ 1 ∧
+      (0 < (hs.filter (fun h => h.1 == c && h.2)).length →
+        (hs.filter (fun h => h.1 == c && !h.2)).length = 0) := Iff.rfl
+
+/-- `Excl` is pairwise non-conflict: no column has a unique holder together with another holder -/
+theorem excl_pairwise (hs : List (Col × Bool)) (h : Excl hs) :
+    hs.Pairwise (fun x y => conflicts x y = false) := h.pairwise
+
+/-- one `borrow`/`borrow_mut`: granted iff the request conflicts with no current holder, and then
+the invariant holds with the new holder; a refusal returns `none` (words untouched) -/
+theorem acquire_spec (ws : Words) (hs : List (Col × Bool)) (c : Col) (u : Bool)
+    (hC : Counts ws hs) (hE : Excl hs) (hb : hs.length < Borrow.UNIQUE) :
+    ((∃ ws', acquire ws c u = some ws') ↔ hs.any (conflicts (c, u)) = false) ∧
+    (∀ ws', acquire ws c u = some ws' → Counts ws' ((c, u) :: hs) ∧ Excl ((c, u) :: hs)) :=
+  ⟨⟨fun ⟨_, h⟩ => acquire_some_noconf ⟨hC, hE⟩ h, acquire_of_noconf ⟨hC, hE⟩ hb⟩,
+    fun _ h => ⟨(acquire_some_CE ⟨hC, hE⟩ h).counts, (acquire_some_CE ⟨hC, hE⟩ h).excl⟩⟩
+
+/-- a shared request conflicts iff the column has a unique holder -/
+theorem shared_conflict_iff (hs : List (Col × Bool)) (c : Col) :
+    hs.any (conflicts (c, false)) = false ↔ ∀ h ∈ hs, ¬ (h.1 = c ∧ h.2 = true) :=
+  (any_conflicts_shared hs c).trans (nU_eq_zero_iff hs c)
+
+/-- a unique request conflicts iff the column has any holder at all -/
+theorem unique_conflict_iff (hs : List (Col × Bool)) (c : Col) :
+    hs.any (conflicts (c, true)) = false ↔ ∀ h ∈ hs, h.1 ≠ c :=
+  unique_conflict_iff' hs c
+
+/-- one `release`/`release_mut` of something held removes exactly that holder -/
+theorem release_spec (ws : Words) (hs : List (Col × Bool)) (c : Col) (u : Bool)
+    (hC : Counts ws hs) (hE : Excl hs) (hm : (c, u) ∈ hs) :
+    Counts (release ws c u) (hs.erase (c, u)) ∧ Excl (hs.erase (c, u)) :=
+  ⟨(release_erase_CE ⟨hC, hE⟩ hm).counts, (release_erase_CE ⟨hC, hE⟩ hm).excl⟩
+
+/-- `acquireList` (one archetype): the acquired prefix `pre` is all of the list iff the call
+succeeded (a strict prefix otherwise — finding F15: it is kept), the invariant holds with `pre`
+added, success implies no conflict, and below the overflow bound success is *equivalent* to no
+conflict with the holders or with an earlier element, `pre` being the predicted prefix -/
+theorem acquireList_spec (ws : Words) (hs : List (Col × Bool)) (a : Nat) (l : List (Nat × Bool))
+    (hC : Counts ws hs) (hE : Excl hs) :
+    let lm := l.map (fun x => ((a, x.1), x.2))
+    let pre := acqPre ws lm
+    pre <+: lm ∧ ((acquireList ws a l).2 = true ↔ pre = lm) ∧
+    Counts (acquireList ws a l).1 (pre ++ hs) ∧ Excl (pre ++ hs) ∧
+    ((acquireList ws a l).2 = true → wouldConflict hs lm = false) ∧
+    (hs.length + l.length < Borrow.UNIQUE →
+      ((acquireList ws a l).2 = true ↔ wouldConflict hs lm = false) ∧ pre = grantPre hs lm) :=
+  acquireList_spec' ws hs a l hC hE
+
+/-- `start_borrow` over the archetypes of `s`: the same, with the wanted set = `held s (.view q)`
+(= `held s (.query q true)`), using `prepares = sat` -/
+theorem startBorrow_spec (s : St) (ws : Words) (hs : List (Col × Bool)) (q : Q)
+    (hC : Counts ws hs) (hE : Excl hs) :
+    let want := held s (.view q)
+    let pre := acqPre ws want
+    want = held s (.query q true) ∧
+    pre <+: want ∧ ((startBorrow q s.indexed ws).2 = true ↔ pre = want) ∧
+    Counts (startBorrow q s.indexed ws).1 (pre ++ hs) ∧ Excl (pre ++ hs) ∧
+    ((startBorrow q s.indexed ws).2 = true → wouldConflict hs want = false) ∧
+    (hs.length + want.length < Borrow.UNIQUE →
+      ((startBorrow q s.indexed ws).2 = true ↔ wouldConflict hs want = false) ∧ pre = grantPre hs want) :=
+  startBorrow_spec' s ws hs q hC hE
+
+/-- the meaning of the specification predicate: `wouldConflict others want = false` says exactly
+that the union of holders still satisfies aliasing-xor-mutation -/
+theorem wouldConflict_meaning (others want : List (Col × Bool)) (h : Excl others) :
+    wouldConflict others want = false ↔ Excl (want ++ others) :=
+  wouldConflict_false_iff h want
+
+/-- when the predicted prefix is strict, the first column left out conflicts with a holder or with
+an earlier column of the same request -/
+theorem refused_at (hs l : List (Col × Bool)) (h : grantPre hs l ≠ l) :
+    ∃ x rest, l = grantPre hs l ++ x :: rest ∧ (grantPre hs l ++ hs).any (conflicts x) = true :=
+  grantPre_next hs l h
+
+/-- every `Drop` releases exactly the `held` set of the guard -/
+theorem drop_releases_held (s : St) (g : Guard) : dropGuard s g = releaseCols s.words (held s g) :=
+  dropGuard_eq s g
+
+/-! ### 2. aliasing-xor-mutation among live guards -/
+
+theorem winv_def (s : St) (leak : List (Col × Bool)) :
+    WInv s leak ↔ NamesNodup s ∧ Counts s.words (heldAll s ++ leak) ∧ Excl (heldAll s ++ leak) :=
+  ⟨fun h => ⟨h.names, h.counts, h.excl⟩, fun h => ⟨h.1, h.2.1, h.2.2⟩⟩
+
+/-- no column has a unique holder together with any other holder -/
+theorem exclusive_column (s : St) (leak : List (Col × Bool)) (h : WInv s leak) (c : Col) :
+    nU (heldAll s ++ leak) c ≤ 1 ∧ (0 < nU (heldAll s ++ leak) c → nS (heldAll s ++ leak) c = 0) :=
+  h.column_exclusive c
+
+/-- what two distinct live guards hold never conflicts -/
+theorem exclusive (s : St) (leak : List (Col × Bool)) (h : WInv s leak) (n₁ n₂ : String) (g₁ g₂ : Guard)
+    (h₁ : s.guard n₁ = some g₁) (h₂ : s.guard n₂ = some g₂) (hne : n₁ ≠ n₂)
+    (x y : Col × Bool) (hx : x ∈ held s g₁) (hy : y ∈ held s g₂) : conflicts x y = false :=
+  h.exclusive h₁ h₂ hne hx hy
+
+/-- nor do two different positions of one live guard's holdings -/
+theorem exclusive_within (s : St) (leak : List (Col × Bool)) (h : WInv s leak) (n : String) (g : Guard)
+    (hg : s.guard n = some g) : (held s g).Pairwise (fun x y => conflicts x y = false) :=
+  h.exclusive_within hg
+
+/-- nor a live guard's holdings with what a failed acquisition left behind -/
+theorem exclusive_leak (s : St) (leak : List (Col × Bool)) (h : WInv s leak) (n : String) (g : Guard)
+    (hg : s.guard n = some g) (x y : Col × Bool) (hx : x ∈ held s g) (hy : y ∈ leak) :
+    conflicts x y = false :=
+  h.exclusive_leak hg hx hy
+
+/-! ### 3. every step preserves the invariant -/
+
+theorem init_winv (archs : List GArch) : WInv { archs := archs } [] := WInv.init archs
+
+/-- creating a guard (every kind, `prepared` included) under a fresh name: the invariant is kept
+with the same `leak` unless the call panicked, in which case `leak` grows by exactly the prefix
+acquired before the refusal -/
+theorem newGuard_preserves (s : St) (leak : List (Col × Bool)) (n : String) (g : Guard)
+    (h : WInv s leak) (hf : s.guard n = none) :
+    ∃ leak', WInv (newGuard s n g).1 leak' ∧
+      ((newGuard s n g).2 ≠ .panic → leak' = leak) ∧
+      ((newGuard s n g).2 = .panic → leak' = acqPre s.words (wantNew s g) ++ leak) ∧
+      (∀ x ∈ leak, x ∈ leak') :=
+  newGuard_preserves_ex n g h hf
+
+/-- every action on a live (or missing) guard, likewise; `clone` needs a fresh target name -/
+theorem act_preserves (s : St) (leak : List (Col × Bool)) (n : String) (a : Act)
+    (h : WInv s leak) (hf : ∀ into, a = .clone into → s.guard into = none) :
+    ∃ leak', WInv (act s n a).1 leak' ∧
+      ((act s n a).2 ≠ .panic → leak' = leak) ∧
+      ((act s n a).2 = .panic → leak' = acqPre s.words (wantAct s n a) ++ leak) ∧
+      (∀ x ∈ leak, x ∈ leak') :=
+  act_preserves_ex n a h hf
+
+/-- below the overflow bound the leaked prefix is the one the property predicts: the longest
+prefix of the request in which no column conflicts with a holder or an earlier column -/
+theorem leaked_prefix_eq (s : St) (leak want : List (Col × Bool)) (h : WInv s leak)
+    (hb : Bound s leak want) :
+    acqPre s.words want = grantPre (heldAll s ++ leak) want ∧ acqPre s.words want <+: want :=
+  ⟨acqPre_eq_grantPre want h.ce hb, acqPre_prefix _ _⟩
+
+/-! ### 4. granted iff no overlap -/
+
+/-- creating any guard except `QueryOne` (which acquires nothing at creation): it does not panic
+iff what it wants conflicts neither with the other guards' holdings (all guards, the name being
+fresh) and the leak, nor with itself -/
+theorem newGuard_grant_iff (s : St) (leak : List (Col × Bool)) (n : String) (g : Guard)
+    (h : WInv s leak) (hf : s.guard n = none) (hne : ∀ q a b, g ≠ .one q a b)
+    (hb : Bound s leak (wantNew s g)) :
+    (newGuard s n g).2 ≠ .panic ↔ wouldConflict (heldAll s ++ leak) (wantNew s g) = false :=
+  ((newGuard_spec h hf g).2 hne).trans (h.grant_iff _ hb)
+
+/-- … and the refusal direction needs no bound: an overlap always panics -/
+theorem newGuard_overlap_panics (s : St) (leak : List (Col × Bool)) (n : String) (g : Guard)
+    (h : WInv s leak) (hf : s.guard n = none) (hne : ∀ q a b, g ≠ .one q a b)
+    (hc : wouldConflict (heldAll s ++ leak) (wantNew s g) = true) : (newGuard s n g).2 = .panic :=
+  newGuard_overlap_panics' n g h hf hne hc
+
+/-- what `newGuard` wants is the `held` set of the guard it creates -/
+theorem wantNew_view (s : St) (q : Q) : wantNew s (.view q) = held s (.view q) := rfl
+theorem wantNew_prepared (s : St) (q : Q) (i : List Nat) :
+    wantNew s (.prepared q i) =
+      held s (.prepared q ((List.range s.archs.length).filter (fun a => q.sat (s.arch a).types))) := by
+  simp only [wantNew, Q.prepares_eq_sat]
+theorem wantNew_ref (s : St) (a t : Nat) (hc : (s.arch a).types.contains t = true) :
+    wantNew s (.ref a t) = held s (.ref a t) ∧ wantNew s (.refMut a t) = held s (.refMut a t) ∧
+    wantNew s (.col a t) = held s (.col a t) ∧ wantNew s (.colMut a t) = held s (.colMut a t) :=
+  wantNew_ref' s a t hc
+
+/-- `QueryOne::new` panics iff the static `assert_borrow` fails (it acquires nothing) -/
+theorem newGuard_one_panic_iff (s : St) (n : String) (q : Q) (a : Nat) (b : Bool) :
+    (newGuard s n (.one q a b)).2 = .panic ↔ q.assertBorrowOk = false :=
+  newGuard_one_panic_iff' s n q a b
+
+/-- `QueryBorrow::iter` on a not yet borrowed query -/
+theorem iter_grant_iff (s : St) (leak : List (Col × Bool)) (n : String) (q : Q)
+    (h : WInv s leak) (hg : s.guard n = some (.query q false))
+    (hb : Bound s leak (held s (.query q true))) :
+    (act s n .iter).2 ≠ .panic ↔
+      wouldConflict (heldAll (s.delGuard n) ++ leak) (held s (.query q true)) = false := by
+  rw [← wouldConflict_others (others_of_nil h.names hg rfl)]
+  exact (iter_granted_iff h hg).trans (h.grant_iff _ hb)
+
+/-- `QueryOne::get` on a not yet borrowed guard whose archetype satisfies the query -/
+theorem get_grant_iff (s : St) (leak : List (Col × Bool)) (n : String) (q : Q) (ar : Nat)
+    (h : WInv s leak) (hg : s.guard n = some (.one q ar false)) (hs : q.sat (s.arch ar).types = true)
+    (hb : Bound s leak (held s (.one q ar true))) :
+    (act s n .get).2 ≠ .panic ↔
+      wouldConflict (heldAll (s.delGuard n) ++ leak) (held s (.one q ar true)) = false := by
+  rw [← wouldConflict_others (others_of_nil h.names hg rfl)]
+  exact (get_granted_iff h hg (by rw [Q.prepares_eq_sat]; exact hs)).trans (h.grant_iff _ hb)
+
+/-- `Ref::clone` / `ArchetypeColumn::clone` into a fresh name (the source stays live, so it is among
+the other guards) -/
+theorem clone_grant_iff (s : St) (leak : List (Col × Bool)) (n into : String) (ar t : Nat)
+    (h : WInv s leak) (hg : s.guard n = some (.ref ar t) ∨ s.guard n = some (.col ar t))
+    (hf : s.guard into = none) (hb : Bound s leak [((ar, t), false)]) :
+    (act s n (.clone into)).2 ≠ .panic ↔
+      wouldConflict (heldAll s ++ leak) [((ar, t), false)] = false :=
+  clone_grant_iff' n into ar t h hg hf hb
+
+/-- a clone of a live shared guard is in fact always granted below the bound: the source's own
+shared borrow shows that the column has no unique holder -/
+theorem clone_granted (s : St) (leak : List (Col × Bool)) (n into : String) (ar t : Nat)
+    (h : WInv s leak) (hg : s.guard n = some (.ref ar t) ∨ s.guard n = some (.col ar t))
+    (hf : s.guard into = none) (hb : Bound s leak [((ar, t), false)]) :
+    (act s n (.clone into)).2 ≠ .panic :=
+  clone_granted' n into ar t h hg hf hb
+
+/-- `QueryOne::get` may be called once: on an already borrowed guard it panics, state unchanged -/
+theorem get_twice_panics (s : St) (n : String) (q : Q) (ar : Nat)
+    (hg : s.guard n = some (.one q ar true)) : act s n .get = (s, .panic) :=
+  get_twice_panics' hg
+
+/-- the judge's "other guards" is the `heldAll (s.delGuard n)` of the theorems above -/
+theorem othersHeld_eq (s : St) (n : String) : GuardJudge.othersHeld s n = heldAll (s.delGuard n) := rfl
+
+/-- the "conversely" half, spelled out for two views / borrowed queries: their holdings overlap iff
+some non-empty archetype satisfies both and both fetches borrow a common component type there, at
+least one of them uniquely -/
+theorem views_conflict_iff (s : St) (q₁ q₂ : Q) :
+    (∃ x ∈ held s (.view q₁), ∃ y ∈ held s (.view q₂), conflicts x y = true) ↔
+      ∃ (a : Nat) (ar : GArch), s.archs[a]? = some ar ∧ ar.len ≠ 0 ∧
+        q₁.sat ar.types = true ∧ q₂.sat ar.types = true ∧
+        ∃ t u₁ u₂, (t, u₁) ∈ q₁.borrowList ar.types ∧ (t, u₂) ∈ q₂.borrowList ar.types ∧
+          (u₁ || u₂) = true :=
+  GuardLemmas.views_conflict_iff s q₁ q₂
+
+/-- … so an overlap needs a component type mentioned by both queries, uniquely by one of them -/
+theorem views_conflict_common_type (s : St) (q₁ q₂ : Q)
+    (h : ∃ x ∈ held s (.view q₁), ∃ y ∈ held s (.view q₂), conflicts x y = true) :
+    ∃ t u₁ u₂, (t, u₁) ∈ q₁.borrows ∧ (t, u₂) ∈ q₂.borrows ∧ (u₁ || u₂) = true :=
+  GuardLemmas.views_conflict_common_type s q₁ q₂ h
+
+/-- what a view / borrowed query holds, column by column -/
+theorem mem_held_view_iff (s : St) (q : Q) (a t : Nat) (u : Bool) :
+    ((a, t), u) ∈ held s (.view q) ↔
+      ∃ ar, s.archs[a]? = some ar ∧ ar.len ≠ 0 ∧ q.sat ar.types = true ∧ (t, u) ∈ q.borrowList ar.types :=
+  GuardLemmas.mem_held_view_iff s q a t u
+
+/-! ### 5. everything dropped -/
+
+/-- with every guard dropped, the only residue is what failed acquisitions left behind -/
+theorem residue (s : St) (leak : List (Col × Bool)) (h : WInv s leak) (hg : s.guards = []) :
+    Counts s.words leak := h.residue hg
+
+/-- with every guard dropped and no refused acquisition, all components are borrowable again -/
+theorem all_released (s : St) (h : WInv s []) (hg : s.guards = []) : ∀ c, wordOf s.words c = 0 :=
+  h.all_released hg
+
+/-- along any script (fresh names) in which nothing panics the invariant holds with no leak … -/
+theorem reach_winv (archs : List GArch) (s' : St) (r : Reach { archs := archs } s') : WInv s' [] :=
+  r.winv (WInv.init archs)
+
+/-- … so once every guard has been dropped, in any order, every word is back to zero -/
+theorem script_all_released (archs : List GArch) (s' : St) (r : Reach { archs := archs } s')
+    (hg : s'.guards = []) : ∀ c, wordOf s'.words c = 0 :=
+  r.all_released hg
+
+/-! ### 6. the item only touches columns that were borrowed -/
+
+/-- the values in a fetched item come from exactly the columns `derefs` lists -/
+theorem item_reads_derefs (q : Q) (ts : List Nat) (vals : List Comp) :
+    (q.item ts vals).types = (q.derefs ts).map (·.1) := item_types_eq_derefs q ts vals
+
+/-- every column the item dereferences was acquired by `Fetch::borrow`, in the needed mode; the
+dynamic borrow list is a sublist of the static one, so `assert_borrow` (which inspects `borrows`)
+covers it: a query that passed it never conflicts with itself on any archetype -/
+theorem exposes_subset_borrows (q : Q) (ts : List Nat) :
+    q.derefs ts = q.borrowList ts ∧ (q.borrowList ts).Sublist q.borrows ∧
+    (∀ x ∈ q.borrowList ts, x ∈ q.borrows) ∧
+    (q.assertBorrowOk = true → ∀ a,
+      ((q.borrowList ts).map (fun x => ((a, x.1), x.2))).Pairwise (fun x y => conflicts x y = false) ∧
+      wouldConflict [] ((q.borrowList ts).map (fun x => ((a, x.1), x.2))) = false) :=
+  ⟨derefs_eq_borrowList q ts, borrowList_sublist q ts, borrowList_subset q ts,
+    fun h a => ⟨assertBorrowOk_covers q h a ts, assertBorrowOk_no_self_conflict q h a ts⟩⟩
+
+/-! ### 7. non-vacuity -/
+
+/-! the concrete world `sEx` (archetypes `[0,1]` with one entity and `[0]` with two), the query
+`qEx = (&mut T0, &T1)` and the script runner `runEx` are defined in `Lemmas/GuardsHeld.lean` -/
+
+example : WInv sEx [] := WInv.init _
+
+/-- shared + shared on the same column: both granted, the word counts two -/
+example :
+    let r := runEx sEx [.new "a" (.ref 0 0), .new "b" (.ref 0 0)]
+    r.2 = [.ok, .ok] ∧ wordOf r.1.words (0, 0) = 2 ∧
+    wouldConflict (heldAll (newGuard sEx "a" (.ref 0 0)).1) [((0, 0), false)] = false := by decide
+
+/-- shared vs unique on the same column: refused, both ways; another column is unaffected -/
+example :
+    (runEx sEx [.new "a" (.refMut 0 0), .new "b" (.ref 0 0)]).2 = [.ok, .panic] ∧
+    (runEx sEx [.new "a" (.ref 0 0), .new "b" (.refMut 0 0)]).2 = [.ok, .panic] ∧
+    (runEx sEx [.new "a" (.refMut 0 0), .new "b" (.refMut 0 1)]).2 = [.ok, .ok] ∧
+    wouldConflict (heldAll (newGuard sEx "a" (.refMut 0 0)).1) [((0, 0), false)] = true := by decide
+
+/-- a view over `&T0` (both archetypes) refuses a unique column borrow of `T0` in archetype 1 and
+grants a shared one; a query that only matches archetype 0 does not touch archetype 1 -/
+example :
+    (runEx sEx [.new "v" (.view (.read 0)), .new "c" (.colMut 1 0)]).2 = [.ok, .panic] ∧
+    (runEx sEx [.new "v" (.view (.read 0)), .new "c" (.col 1 0)]).2 = [.ok, .ok] ∧
+    (runEx sEx [.new "q" (.query qEx false), .act "q" .iter, .new "c" (.colMut 1 0)]).2 = [.ok, .ok, .ok] ∧
+    (runEx sEx [.new "q" (.query qEx false), .act "q" .iter, .new "c" (.col 0 0)]).2 = [.ok, .ok, .panic] := by
+  decide
+
+/-- a full script in which nothing is refused: afterwards no guard is left and every word is zero -/
+example :
+    let r := runEx sEx [.new "q" (.query qEx false), .act "q" .iter, .new "v" (.view (.read 1)),
+      .new "p" (.prepared (.read 1) []), .new "o" (.one (.read 1) 0 false), .act "o" .get,
+      .new "r" (.ref 1 0), .act "r" (.clone "r2"), .act "q" (.with_ (.read 1)), .act "q" .iter,
+      .act "r" .drop, .act "q" .drop, .act "v" .drop, .act "r2" .drop, .act "o" .drop, .act "p" .drop]
+    r.2 = [.ok, .ok, .ok, .ok, .ok, .ok, .ok, .ok, .ok, .ok, .ok, .ok, .ok, .ok, .ok, .ok] ∧
+    r.1.guards = [] ∧ r.1.words.all (fun w => w.2 == 0) = true := by decide
+
+/-- F15, at the level of `acquireList`: with `(0,1)` uniquely held, acquiring `[(0,&mut), (1,&)]`
+on archetype 0 is refused at the second column but the first stays uniquely borrowed -/
+example :
+    let ws := (newGuard sEx "m" (.refMut 0 1)).1.words
+    (acquireList ws 0 [(0, true), (1, false)]).2 = false ∧
+    wordOf (acquireList ws 0 [(0, true), (1, false)]).1 (0, 0) = Borrow.UNIQUE ∧
+    acqPre ws [((0, 0), true), ((0, 1), false)] = [((0, 0), true)] := by decide
+
+/-- F15 (open finding), the proved negation of "all released" for scripts WITH a refused
+multi-column acquisition: `T1` of archetype 0 is uniquely borrowed, `QueryOne<(&mut T0, &T1)>::get`
+panics at its second column and keeps the first; after every guard has been dropped the word of
+`(0, T0)` is still `UNIQUE ≠ 0`, so `T0` of archetype 0 can never be borrowed again -/
+theorem failed_acquisition_leaks :
+    let r := runEx sEx [.new "m" (.refMut 0 1), .new "o" (.one qEx 0 false), .act "o" .get,
+      .act "m" .drop, .act "o" .drop]
+    r.2 = [.ok, .ok, .panic, .ok, .ok] ∧ r.1.guards = [] ∧
+    wordOf r.1.words (0, 0) = Borrow.UNIQUE ∧ Borrow.UNIQUE ≠ 0 ∧
+    (acquire r.1.words (0, 0) false = none ∧ acquire r.1.words (0, 0) true = none) ∧
+    WInv r.1 [((0, 0), true)] := by
+  exact ⟨by decide, by decide, by decide, by decide, by decide, leakEx_winv⟩
 
 end Hecs.Props.C05
